@@ -57,7 +57,7 @@ for p in props:
             "level_note": "Trusted: Coq kernel, extraction (ExtrOcamlBasic only) + OCaml driver, Rust harness and toy ciphers, Python "
                           "generators/oracles, the syntactic translator rs2v (syn) and the interpreter MirSem.v that gives the translated "
                           "Rust subset its meaning; Rust semantics and the dependency crates are modelled, not verified; functions without a "
-                          "semantic tie theorem (generic plumbing, buffered CFB, cts) are tied by syntactic pins and by sampling.",
+                          "semantic tie theorem (the generic *_with_backend plumbing, derived Debug/Drop impls) are tied by syntactic pins and by sampling.",
             "technique": "machine-checked proof in Coq (Rocq): model theorems + translation tie (rs2v, tie theorems, pins) re-checked per run + "
                          "model/code correspondence check"})
     else:
